@@ -8,7 +8,7 @@ from vplib import common
 from vplib import cycleengine as ce
 
 HARNESS_BIN = "cycle_harness"
-COQ_TARGETS = ["Cycle/StampK.vo", "Cycle/Model.vo", "Cycle/Spec.vo", "Cycle/Cert.vo"]
+COQ_TARGETS = ["Cycle/StampK.vo", "Cycle/Model.vo", "Cycle/Spec.vo", "Cycle/Cert.vo", "Cycle/DslSpec.vo"]
 
 # what the known classes are (the authoritative list is /verif/known-findings.txt)
 KNOWN_TEXT = {
@@ -102,6 +102,7 @@ def run_cycle(ctx, profiles, n_quick, n_thorough, oracle=None, nontrivial_rule=N
     nontrivial = 0
     corr_diffs, spec_diffs, oracle_diffs, known = [], [], [], {}
     cert = dict(true=0, false=0)
+    hclass = {"in": 0, "out": 0}
     spec_compared = 0
     opcount = {}
     for c in cases:
@@ -118,6 +119,12 @@ def run_cycle(ctx, profiles, n_quick, n_thorough, oracle=None, nontrivial_rule=N
                 spec_diffs.append((c, r))
         elif r["level"] is not None:
             corr_diffs.append((c, r))
+        for l in ml:
+            if l.startswith("H "):
+                hclass["in" if l.strip() == "H 1" else "out"] += 1
+                if l.strip() != "H 1":
+                    raise common.CheckError(f"case {cid}: generated program is outside the class mono_table for "
+                                            "which C12_profile_programs_monotone proves the theorems' hypotheses")
         d = ce.split_lines(ml)
         spec_compared += len(d["V"])
         for v in d["C"].values():
@@ -246,6 +253,7 @@ def run_cycle(ctx, profiles, n_quick, n_thorough, oracle=None, nontrivial_rule=N
         "implementation_vs_model_disagreements": len(corr_diffs),
         "oracle_disagreements": len(oracle_diffs),
         "certificate_per_get": cert,
+        "programs_in_proved_hypothesis_class": hclass,
         "failing_input_search_cases": searched,
         "feature_histogram": feats_count,
         "operation_histogram": opcount,
